@@ -4,6 +4,7 @@ package list
 
 import (
 	"sync"
+	"sync/atomic"
 
 	"github.com/go-kid/ioc/zzverif/nd"
 )
@@ -17,18 +18,20 @@ func VerifC20Set() {
 		Length() int
 		ToArray() []string
 	}
-	if nd.Bool() {
-		s = NewConcurrentSets()
-	} else {
-		s = NewGenericConcurrentSets[string]()
+	generic := !nd.Bool()
+	if generic {
 		nd.Cover("generic set")
 	}
-	keys := []string{"a", "b"}
-	type op struct {
-		kind int
-		key  string
-		res  bool
+	fresh := func() {
+		if generic {
+			s = NewGenericConcurrentSets[string]()
+		} else {
+			s = NewConcurrentSets()
+		}
 	}
+	fresh()
+	keys := []string{"a", "b"}
+	type op = vSetOp
 	var th [2][]*op
 	for t := 0; t < 2; t++ {
 		for i := 0; i < nd.Param("OPS", 2); i++ {
@@ -37,14 +40,52 @@ func VerifC20Set() {
 	}
 	// optionally the first key is in the set before the goroutines start
 	pre := nd.Bool()
+	// Under the engine the scenario runs once and the interleaving is a symbolic choice.  Natively (sampled
+	// paths and counterexample replays) nothing forces an interleaving, so the same scenario is repeated
+	// on fresh sets with the two goroutines released together: a violating interleaving the engine
+	// predicted shows up in one of the rounds.
+	rounds := 1
+	if !nd.Symbolic() {
+		rounds = 6000
+	}
+	for round := 0; round < rounds; round++ {
+		if round > 0 {
+			fresh()
+		}
+		vSetRound(s, pre, keys, th[0], th[1])
+	}
+	nd.Cover("set history checked")
+}
+
+type vSetOp = struct {
+	kind int
+	key  string
+	res  bool
+}
+
+func vSetRound(s interface {
+	Put(string)
+	Exists(string) bool
+	Remove(string)
+	Length() int
+	ToArray() []string
+}, pre bool, keys []string, t0, t1 []*vSetOp) {
+	th := [2][]*vSetOp{t0, t1}
 	if pre {
 		s.Put(keys[0])
 	}
 	var wg sync.WaitGroup
 	wg.Add(2)
+	var ready atomic.Int32
 	for t := 0; t < 2; t++ {
 		go func(t int) {
 			defer wg.Done()
+			if !nd.Symbolic() {
+				// released together
+				ready.Add(1)
+				for ready.Load() < 2 {
+				}
+			}
 			for _, o := range th[t] {
 				switch o.kind {
 				case 0:
@@ -93,5 +134,4 @@ func VerifC20Set() {
 		}
 	}
 	nd.Assert(s.Length() == present && len(s.ToArray()) == present, "C20: after concurrent operations the set's size agrees with its membership (no sequential order of the calls explains anything else)")
-	nd.Cover("set history checked")
 }
